@@ -247,4 +247,675 @@ theorem AddedInMode.ins {r : LexRule} {s s' : Spec} (h : AddedInMode r s s') : I
       simp only [Stmt.syntaxDiags, List.mem_flatMap]
       exact ⟨r', by simp, hd⟩
 
+
+/-! ## What an insertion preserves -/
+
+theorem Ins.mem_lex {s s' : Spec} {nl np nev} (h : Ins s s' nl np nev) {x : LexRule} :
+    x ∈ s'.lexRules ↔ x ∈ s.lexRules ∨ x ∈ nl := by
+  obtain ⟨L₁, L₂, h1, h2⟩ := h.lex
+  rw [h1, h2]; simp only [List.mem_append]
+  constructor <;> (intro hx; rcases hx with (hx | hx) | hx <;> simp [hx])
+
+theorem Ins.mem_par {s s' : Spec} {nl np nev} (h : Ins s s' nl np nev) {x : PRule} :
+    x ∈ s'.prules ↔ x ∈ s.prules ∨ x ∈ np := by
+  obtain ⟨P₁, P₂, h1, h2⟩ := h.par
+  rw [h1, h2]; simp only [List.mem_append]
+  constructor <;> (intro hx; rcases hx with (hx | hx) | hx <;> simp [hx])
+
+theorem Ins.mem_evs {s s' : Spec} {nl np nev} (h : Ins s s' nl np nev) {x : Ev} :
+    x ∈ s'.events ↔ x ∈ s.events ∨ x ∈ nev := by
+  obtain ⟨E₁, E₂, h1, h2⟩ := h.evs
+  rw [h1, h2]; simp only [List.mem_append]
+  constructor <;> (intro hx; rcases hx with (hx | hx) | hx <;> simp [hx])
+
+theorem Ins.mem_declared {s s' : Spec} {nl np nev} (h : Ins s s' nl np nev) {x : Name × Ent} :
+    x ∈ s'.declared ↔ x ∈ s.declared ∨ x ∈ nev.map Ev.entry := by
+  obtain ⟨n, e⟩ := x
+  simp only [Analyze.mem_declared, h.mem_evs, List.mem_map]
+  constructor
+  · rintro ⟨ev, hev | hev, rfl, rfl⟩
+    · exact Or.inl ⟨ev, hev, rfl, rfl⟩
+    · exact Or.inr ⟨ev, hev, rfl⟩
+  · rintro (⟨ev, hev, rfl, rfl⟩ | ⟨ev, hev, he⟩)
+    · exact ⟨ev, Or.inl hev, rfl, rfl⟩
+    · simp only [Ev.entry] at he
+      cases he
+      exact ⟨ev, Or.inr hev, rfl, rfl⟩
+
+/-- Stage 0 for one parser rule. -/
+structure PRule.Clean0 (r : PRule) : Prop where
+  atoms : ∀ p ∈ r.prods, ∀ t ∈ p.terms, ∀ x ∈ t.atom.atoms, x.synOk = true
+  cards : ∀ p ∈ r.prods, ∀ t ∈ p.terms, t.badListCard = false
+  quals : ∀ p ∈ r.prods, ∀ x, p.qual = some x → x.bad = false
+
+theorem Ins.clean0 {s s' : Spec} {nl np nev} (h : Ins s s' nl np nev) (c : Clean0 s)
+    (hl : ∀ r ∈ nl, ∀ l ∈ r.leaves, l.escOk = true) (hp : ∀ r ∈ np, r.Clean0) : Clean0 s' := by
+  refine ⟨?_, ?_, ?_, ?_⟩
+  · intro r hr
+    rcases h.mem_lex.1 hr with hr | hr
+    · exact c.lex r hr
+    · exact hl r hr
+  · intro r hr
+    rcases h.mem_par.1 hr with hr | hr
+    · exact c.atoms r hr
+    · exact (hp r hr).atoms
+  · intro r hr
+    rcases h.mem_par.1 hr with hr | hr
+    · exact c.cards r hr
+    · exact (hp r hr).cards
+  · intro r hr
+    rcases h.mem_par.1 hr with hr | hr
+    · exact c.quals r hr
+    · exact (hp r hr).quals
+
+/-- The new registrations are valid, new, pairwise different and none is a `@start` rule. -/
+structure FreshEvents (s : Spec) (nev : List Ev) : Prop where
+  valid : ∀ ev ∈ nev, ev.validate = []
+  fresh : ∀ ev ∈ nev, ev.name ∉ s.declared.map (·.1)
+  nodup : (nev.map (·.name)).Nodup
+  noStart : ∀ ev ∈ nev, ev.ent.isStart = false
+
+theorem declared_names (s : Spec) : s.declared.map (·.1) = s.events.map (·.name) := by
+  simp [Spec.declared]
+
+theorem Ins.clean1 {s s' : Spec} {nl np nev} (h : Ins s s' nl np nev) (c : Clean1 s) (hf : FreshEvents s nev)
+    (hnp : ∀ r ∈ np, r.isStart = false) : Clean1 s' := by
+  refine ⟨?_, ?_, ?_⟩
+  · intro ev hev
+    rcases h.mem_evs.1 hev with hev | hev
+    · exact c.valid ev hev
+    · exact hf.valid ev hev
+  · obtain ⟨E₁, E₂, h1, h2⟩ := h.evs
+    have hn := c.nodup
+    rw [declared_names, h1] at hn
+    rw [declared_names, h2]
+    simp only [List.map_append] at hn ⊢
+    have hfr : ∀ ev ∈ nev, ev.name ∉ (E₁.map (·.name)) ∧ ev.name ∉ (E₂.map (·.name)) := by
+      intro ev hev
+      have := hf.fresh ev hev
+      rw [declared_names, h1] at this
+      simp only [List.map_append, List.mem_append, not_or] at this
+      exact this
+    rw [List.nodup_append] at hn
+    obtain ⟨hn1, hn2, hn12⟩ := hn
+    rw [List.nodup_append, List.nodup_append]
+    refine ⟨⟨hn1, hf.nodup, ?_⟩, hn2, ?_⟩
+    · intro a ha b hb hab
+      obtain ⟨ev, hev, rfl⟩ := List.mem_map.1 hb
+      exact (hfr ev hev).1 (hab ▸ ha)
+    · intro a ha b hb hab
+      rcases List.mem_append.1 ha with ha | ha
+      · exact hn12 a ha b hb hab
+      · obtain ⟨ev, hev, rfl⟩ := List.mem_map.1 ha
+        exact (hfr ev hev).2 (hab ▸ hb)
+  · obtain ⟨P₁, P₂, h1, h2⟩ := h.par
+    have hc := c.start
+    rw [h1] at hc
+    rw [h2]
+    have : np.filter (·.isStart) = [] := List.filter_eq_nil_iff.2 fun r hr => by simp [hnp r hr]
+    simp only [List.filter_append, List.length_append, this, List.length_nil] at hc ⊢
+    omega
+
+/-- Look-ups of old names are not disturbed. -/
+theorem Ins.lookup_mono {s s' : Spec} {nl np nev} (h : Ins s s' nl np nev) (hnd' : (s'.declared.map (·.1)).Nodup)
+    {n : Name} {e : Ent} (hl : s.declared.lookup n = some e) : s'.declared.lookup n = some e :=
+  lookup_of_mem hnd' (h.mem_declared.2 (Or.inl (mem_of_lookup hl)))
+
+theorem Ins.aliasCount {s s' : Spec} {nl np nev} (h : Ins s s' nl np nev)
+    (hna : ∀ ev ∈ nev, ∀ t, ev.ent.hasAlias t = false) (t : String) :
+    s'.declared.aliasCount t = s.declared.aliasCount t := by
+  obtain ⟨E₁, E₂, h1, h2⟩ := h.evs
+  simp only [Env.aliasCount, Spec.declared, h1, h2, List.map_append, List.countP_append, List.countP_map]
+  have : nev.countP ((fun x : Name × Ent => x.2.hasAlias t) ∘ fun ev => (ev.name, ev.ent)) = 0 :=
+    List.countP_eq_zero.2 fun ev hev => by simp [hna ev hev t]
+  omega
+
+theorem Leaf.checkOk_mono {env env' : Env} (hm : ∀ n e, env.lookup n = some e → env'.lookup n = some e) {l : Leaf}
+    (h : l.checkOk env) : l.checkOk env' := by
+  cases l with
+  | ref ln n => obtain ⟨id, ln', e, hl⟩ := h; exact ⟨id, ln', e, hm _ _ hl⟩
+  | _ => exact h
+
+theorem Ins.clean2 {s s' : Spec} {nl np nev} (h : Ins s s' nl np nev) (hnd' : (s'.declared.map (·.1)).Nodup)
+    (c : Clean2 s s.declared) (hna : ∀ ev ∈ nev, ∀ t, ev.ent.hasAlias t = false)
+    (hl : ∀ r ∈ nl, r.check s'.declared = []) (hp : ∀ r ∈ np, r.check s'.declared = []) :
+    Clean2 s' s'.declared := by
+  have hm : ∀ n e, s.declared.lookup n = some e → s'.declared.lookup n = some e := fun n e => h.lookup_mono hnd'
+  refine ⟨?_, ?_, ?_⟩
+  · intro r hr l hl'
+    rcases h.mem_lex.1 hr with hr | hr
+    · exact Leaf.checkOk_mono hm (c.leaves r hr l hl')
+    · exact ((LexRule.check_eq_nil _ r).1 (hl r hr)).1 l hl'
+  · intro r hr a ha
+    rcases h.mem_lex.1 hr with hr | hr
+    · have := c.actions r hr a ha
+      cases a with
+      | pushMode l m =>
+        rcases (hasMode_iff _ m).1 this with h1 | h1
+        · exact (hasMode_iff _ m).2 (Or.inl h1)
+        · exact (hasMode_iff _ m).2 (Or.inr (h.mem_declared.2 (Or.inl h1)))
+      | emit l n => obtain ⟨e, hl', hk⟩ := this; exact ⟨e, hm _ _ hl', hk⟩
+      | discard l => trivial
+      | popMode l => trivial
+    · exact ((LexRule.check_eq_nil _ r).1 (hl r hr)).2 a ha
+  · intro r hr t ht x hx
+    rcases h.mem_par.1 hr with hr | hr
+    · have := c.atoms r hr t ht x hx
+      cases x with
+      | name l n => obtain ⟨e, hl', hk⟩ := this; exact ⟨e, hm _ _ hl', hk⟩
+      | alias l tx b =>
+        rcases this with h1 | h1
+        · exact Or.inl h1
+        · exact Or.inr (by rw [h.aliasCount hna]; exact h1)
+      | error l => trivial
+      | list l e sp => exact this
+    · exact (PRule.check_eq_nil _ r).1 (hp r hr) t ht x hx
+
+/-! ## Faults -/
+
+/-- Stage 0 of `s` (well formed), unit by unit. -/
+theorem units_clean_of_wf {s : Spec} (w : WellFormed s) : ∀ u ∈ s.units, u.syntaxDiags = [] := by
+  have h := (analyze_nil_clean s).1 ((analyze_nil_iff_wellFormed s).2 w)
+  have h0 := (syntaxDiags_eq_nil s).2 h.1
+  simp only [syntaxDiags, firstNonEmpty_eq_nil, List.mem_map, forall_exists_index, and_imp,
+    forall_apply_eq_imp_iff₂] at h0
+  exact h0
+
+/-- A diagnostic of stage 0 in the added declaration is reported. -/
+theorem Ins.fault_syntax {s s' : Spec} {nl np nev} (h : Ins s s' nl np nev) (w : WellFormed s) {d : Diag}
+    (hd : (∃ r ∈ nl, d ∈ r.syntaxDiags) ∨ (∃ r ∈ np, d ∈ r.prods.flatMap (Prod.syntaxDiags r.id))) :
+    d ∈ analyze s' := by
+  apply analyze_of_syntax
+  obtain ⟨U₁, un, U₂, hu, hsub, h1, h2⟩ := h.syn
+  have hdu : d ∈ un.syntaxDiags := by
+    rcases hd with ⟨r, hr, hd⟩ | ⟨r, hr, hd⟩
+    · exact h1 r hr d hd
+    · exact h2 r hr d hd
+  simp only [syntaxDiags, hu, List.map_append, List.map_cons]
+  rw [firstNonEmpty_append_of_nil _ _ _ (List.ne_nil_of_mem hdu)]
+  · exact hdu
+  · intro l hl
+    obtain ⟨u, hu', rfl⟩ := List.mem_map.1 hl
+    exact units_clean_of_wf w u (hsub u hu')
+
+theorem wf_clean {s : Spec} (w : WellFormed s) : Clean0 s ∧ Clean1 s ∧ Clean2 s s.declared ∧ Clean4 s s.declared :=
+  (clean_iff_wellFormed s).2 w
+
+/-- A diagnostic of pass `Check` in an added lexer rule is reported. -/
+theorem Ins.fault_check_lex {s s' : Spec} {r : LexRule} {np nev} (h : Ins s s' [r] np nev) (w : WellFormed s)
+    (hf : FreshEvents s nev) (hnp : ∀ r ∈ np, r.isStart = false ∧ r.Clean0)
+    (hsyn : ∀ l ∈ r.leaves, l.escOk = true) {d : Diag} (hd : d ∈ r.check s'.declared) : d ∈ analyze s' := by
+  obtain ⟨c0, c1, _, _⟩ := wf_clean w
+  have c0' := h.clean0 c0 (fun r' hr l hl => by simp only [List.mem_singleton] at hr; subst hr; exact hsyn l hl)
+    (fun r hr => (hnp r hr).2)
+  have c1' := h.clean1 c1 hf (fun r hr => (hnp r hr).1)
+  exact analyze_of_check c0' c1' (mem_check.2 (Or.inl ⟨r, h.mem_lex.2 (Or.inr (by simp)), hd⟩))
+
+/-- A diagnostic of pass `Check` in an added parser rule is reported. -/
+theorem Ins.fault_check_par {s s' : Spec} {r : PRule} {nev} (h : Ins s s' [] [r] nev) (w : WellFormed s)
+    (hf : FreshEvents s nev) (hns : r.isStart = false) (hsyn : r.Clean0) {d : Diag} (hd : d ∈ r.check s'.declared) :
+    d ∈ analyze s' := by
+  obtain ⟨c0, c1, _, _⟩ := wf_clean w
+  have c0' := h.clean0 c0 (by simp) (fun r' hr => by simp only [List.mem_singleton] at hr; subst hr; exact hsyn)
+  have c1' := h.clean1 c1 hf (fun r' hr => by simp only [List.mem_singleton] at hr; subst hr; exact hns)
+  exact analyze_of_check c0' c1' (mem_check.2 (Or.inr ⟨r, h.mem_par.2 (Or.inr (by simp)), hd⟩))
+
+/-- A diagnostic of pass `GenerateGrammar` in an added lexer rule is reported. -/
+theorem Ins.fault_generate_lex {s s' : Spec} {r : LexRule} {nev} (h : Ins s s' [r] [] nev) (w : WellFormed s)
+    (hf : FreshEvents s nev) (hna : ∀ ev ∈ nev, ∀ t, ev.ent.hasAlias t = false)
+    (hsyn : ∀ l ∈ r.leaves, l.escOk = true) (hck : r.check s'.declared = []) {d : Diag}
+    (hd : d ∈ r.generate s'.declared) : d ∈ analyze s' := by
+  obtain ⟨c0, c1, c2, _⟩ := wf_clean w
+  have c0' := h.clean0 c0 (fun r' hr l hl => by simp only [List.mem_singleton] at hr; subst hr; exact hsyn l hl) (by simp)
+  have c1' := h.clean1 c1 hf (by simp)
+  have c2' := h.clean2 c1'.nodup c2 hna (fun r' hr => by simp only [List.mem_singleton] at hr; subst hr; exact hck) (by simp)
+  exact analyze_of_generate c0' c1' c2' (generate_of_rule (h.mem_lex.2 (Or.inr (by simp))) hd)
+
+
+/-! ## The diagnostic of each faulty construct -/
+
+theorem LexRule.check_of_leaf {env : Env} {r : LexRule} {l : Leaf} {d : Diag} (hl : l ∈ r.leaves)
+    (hd : d ∈ l.check env r.id) : d ∈ r.check env := by
+  cases r <;> simp only [LexRule.leaves, LexRule.expr?, List.not_mem_nil] at hl <;>
+    simp only [LexRule.check, exprCheck, List.mem_append, List.mem_flatMap, LexRule.id] at hd ⊢
+  · exact Or.inl ⟨l, hl, hd⟩
+  · exact Or.inl ⟨l, hl, hd⟩
+  · exact ⟨l, hl, hd⟩
+
+theorem LexRule.check_of_action {env : Env} {r : LexRule} {a : Action} {d : Diag} (ha : a ∈ r.actions)
+    (hd : d ∈ a.check env r.id) : d ∈ r.check env := by
+  cases r <;> simp only [LexRule.actions, List.not_mem_nil] at ha <;>
+    simp only [LexRule.check, List.mem_append, List.mem_flatMap, LexRule.id] at hd ⊢
+  · exact Or.inr ⟨a, ha, hd⟩
+  · exact Or.inr ⟨a, ha, hd⟩
+
+theorem LexRule.syntax_of_leaf {r : LexRule} {l : Leaf} {d : Diag} (hl : l ∈ r.leaves)
+    (hd : d ∈ l.syntaxDiags r.id) : d ∈ r.syntaxDiags := by
+  cases r <;> simp only [LexRule.leaves, LexRule.expr?, List.not_mem_nil] at hl <;>
+    simp only [LexRule.syntaxDiags, exprSyntaxDiags, List.mem_flatMap, LexRule.id] at hd ⊢
+  all_goals exact ⟨l, hl, hd⟩
+
+/-- What `preCheck`/`postCheck` say about this term itself (not about the parameters of a list). -/
+def PAtom.checkSelf (env : Env) (id : DeclId) : PAtom → List Diag
+  | .list _ e sp =>
+    if !e.isSimple then [⟨.listEntryNotSimple, e.line, "", some id⟩]
+    else if !sp.isSimple then [⟨.listSepNotSimple, e.line, "", some id⟩] else []
+  | y => y.check env id
+
+theorem PAtom.check_of_atom {env : Env} {id : DeclId} {a x : PAtom} {d : Diag} (hx : x ∈ a.atoms)
+    (hd : d ∈ x.checkSelf env id) : d ∈ a.check env id := by
+  induction a with
+  | name l n => simp only [PAtom.atoms, List.mem_singleton] at hx; subst hx; exact hd
+  | alias l t b => simp only [PAtom.atoms, List.mem_singleton] at hx; subst hx; exact hd
+  | error l => simp only [PAtom.atoms, List.mem_singleton] at hx; subst hx; exact hd
+  | list l e sp ihe ihs =>
+    simp only [PAtom.atoms, List.mem_cons, List.mem_append] at hx
+    simp only [PAtom.check, List.mem_append]
+    rcases hx with rfl | hx | hx
+    · exact Or.inr hd
+    · exact Or.inl (Or.inl (ihe hx))
+    · exact Or.inl (Or.inr (ihs hx))
+
+/-- What stage 0 says about this term itself. -/
+def PAtom.syntaxSelf (id : DeclId) : PAtom → List Diag
+  | .list _ _ _ => []
+  | y => y.syntaxDiags id
+
+theorem PAtom.syntax_of_atom {id : DeclId} {a x : PAtom} {d : Diag} (hx : x ∈ a.atoms)
+    (hd : d ∈ x.syntaxSelf id) : d ∈ a.syntaxDiags id := by
+  induction a with
+  | name l n => simp only [PAtom.atoms, List.mem_singleton] at hx; subst hx; exact hd
+  | alias l t b => simp only [PAtom.atoms, List.mem_singleton] at hx; subst hx; exact hd
+  | error l => simp only [PAtom.atoms, List.mem_singleton] at hx; subst hx; exact hd
+  | list l e sp ihe ihs =>
+    simp only [PAtom.atoms, List.mem_cons, List.mem_append] at hx
+    simp only [PAtom.syntaxDiags, List.mem_append]
+    rcases hx with rfl | hx | hx
+    · simp [PAtom.syntaxSelf] at hd
+    · exact Or.inl (ihe hx)
+    · exact Or.inr (ihs hx)
+
+theorem PRule.check_of_term {env : Env} {r : PRule} {p : Prod} {t : PTerm} {d : Diag} (hp : p ∈ r.prods)
+    (ht : t ∈ p.terms) (hd : d ∈ t.atom.check env r.id) : d ∈ r.check env := by
+  simp only [PRule.check, List.mem_flatMap, PTerm.check]
+  exact ⟨p, hp, t, ht, hd⟩
+
+theorem PRule.syntax_of_term {r : PRule} {p : Prod} {t : PTerm} {d : Diag} (hp : p ∈ r.prods)
+    (ht : t ∈ p.terms) (hd : d ∈ t.syntaxDiags r.id) : d ∈ r.prods.flatMap (Prod.syntaxDiags r.id) := by
+  simp only [List.mem_flatMap, Prod.syntaxDiags, List.mem_append]
+  exact ⟨p, hp, Or.inl ⟨t, ht, hd⟩⟩
+
+theorem tokenDiscard_mem (id : DeclId) (l : Line) (acts : List Action) (h1 : ∃ a ∈ acts, a.isDiscard = true)
+    (h2 : ∀ a ∈ acts, a.isEmit = false) : ⟨.tokenDiscard, l, "", some id⟩ ∈ tokenActionDiags id l acts := by
+  induction acts with
+  | nil => simp at h1
+  | cons a as ih =>
+    simp only [tokenActionDiags]
+    by_cases hd : a.isDiscard = true
+    · simp [hd]
+    · have he : a.isEmit = false := h2 a List.mem_cons_self
+      simp only [hd, he, Bool.false_eq_true, if_false]
+      apply ih
+      · obtain ⟨x, hx, hxd⟩ := h1
+        rcases List.mem_cons.1 hx with rfl | hx
+        · exact absurd hxd hd
+        · exact ⟨x, hx, hxd⟩
+      · exact fun x hx => h2 x (List.mem_cons_of_mem _ hx)
+
+theorem tokenEmit_mem (id : DeclId) (l : Line) (acts : List Action) (h1 : ∃ a ∈ acts, a.isEmit = true)
+    (h2 : ∀ a ∈ acts, a.isDiscard = false) : ⟨.tokenEmit, l, "", some id⟩ ∈ tokenActionDiags id l acts := by
+  induction acts with
+  | nil => simp at h1
+  | cons a as ih =>
+    simp only [tokenActionDiags]
+    have hd : a.isDiscard = false := h2 a List.mem_cons_self
+    by_cases he : a.isEmit = true
+    · simp [hd, he]
+    · simp only [hd, he, Bool.false_eq_true, if_false]
+      apply ih
+      · obtain ⟨x, hx, hxe⟩ := h1
+        rcases List.mem_cons.1 hx with rfl | hx
+        · exact absurd hxe he
+        · exact ⟨x, hx, hxe⟩
+      · exact fun x hx => h2 x (List.mem_cons_of_mem _ hx)
+
+theorem fragTwoDiscard_mem (id : DeclId) (l : Line) (acts : List Action) (hd : Bool)
+    (h1 : 2 ≤ b2n hd + (acts.filter Action.isDiscard).length) (h2 : ∀ a ∈ acts, a.isEmit = false) :
+    ⟨.fragTwoDiscard, l, "", some id⟩ ∈ fragActionDiags id l hd false acts := by
+  induction acts generalizing hd with
+  | nil => cases hd <;> simp [b2n] at h1
+  | cons a as ih =>
+    simp only [fragActionDiags]
+    have he : a.isEmit = false := h2 a List.mem_cons_self
+    by_cases hda : a.isDiscard = true
+    · cases hd
+      · simp only [hda, if_true, Bool.false_eq_true, if_false]
+        apply ih true _ (fun x hx => h2 x (List.mem_cons_of_mem _ hx))
+        simp only [List.filter_cons, hda, if_true, List.length_cons, b2n] at h1 ⊢
+        simp at h1 ⊢; omega
+      · simp [hda]
+    · simp only [hda, he, Bool.false_eq_true, if_false]
+      apply ih hd _ (fun x hx => h2 x (List.mem_cons_of_mem _ hx))
+      simpa [List.filter_cons, hda] using h1
+
+theorem fragTwoEmit_mem (id : DeclId) (l : Line) (acts : List Action) (he : Bool)
+    (h1 : 2 ≤ b2n he + (acts.filter Action.isEmit).length) (h2 : ∀ a ∈ acts, a.isDiscard = false) :
+    ⟨.fragTwoEmit, l, "", some id⟩ ∈ fragActionDiags id l false he acts := by
+  induction acts generalizing he with
+  | nil => cases he <;> simp [b2n] at h1
+  | cons a as ih =>
+    simp only [fragActionDiags]
+    have hd : a.isDiscard = false := h2 a List.mem_cons_self
+    by_cases hea : a.isEmit = true
+    · cases he
+      · simp only [hd, hea, if_true, Bool.false_eq_true, if_false]
+        apply ih true _ (fun x hx => h2 x (List.mem_cons_of_mem _ hx))
+        simp only [List.filter_cons, hea, if_true, List.length_cons, b2n] at h1 ⊢
+        simp at h1 ⊢; omega
+      · simp [hd, hea]
+    · simp only [hd, hea, Bool.false_eq_true, if_false]
+      apply ih he _ (fun x hx => h2 x (List.mem_cons_of_mem _ hx))
+      simpa [List.filter_cons, hea] using h1
+
+theorem fragBoth_mem (id : DeclId) (l : Line) (acts : List Action) (hd he : Bool)
+    (h1 : b2n hd + (acts.filter Action.isDiscard).length = 1) (h2 : b2n he + (acts.filter Action.isEmit).length = 1) :
+    ⟨.fragDiscardAndEmit, l, "", some id⟩ ∈ fragActionDiags id l hd he acts := by
+  induction acts generalizing hd he with
+  | nil => cases hd <;> cases he <;> simp_all [b2n, fragActionDiags]
+  | cons a as ih =>
+    simp only [fragActionDiags]
+    by_cases hda : a.isDiscard = true
+    · have hea : a.isEmit = false := by
+        cases h : a.isEmit
+        · rfl
+        · exact absurd ⟨hda, h⟩ a.not_both
+      cases hd
+      · simp only [hda, if_true, Bool.false_eq_true, if_false]
+        apply ih
+        · simp only [List.filter_cons, hda, if_true, List.length_cons, b2n] at h1 ⊢
+          simp at h1 ⊢; omega
+        · simpa [List.filter_cons, hea] using h2
+      · simp only [List.filter_cons, hda, if_true, List.length_cons, b2n] at h1
+        simp at h1
+    · by_cases hea : a.isEmit = true
+      · cases he
+        · simp only [hda, hea, if_true, Bool.false_eq_true, if_false]
+          apply ih
+          · simpa [List.filter_cons, hda] using h1
+          · simp only [List.filter_cons, hea, if_true, List.length_cons, b2n] at h2 ⊢
+            simp at h2 ⊢; omega
+        · simp only [List.filter_cons, hea, if_true, List.length_cons, b2n] at h2
+          simp at h2
+      · simp only [hda, hea, Bool.false_eq_true, if_false]
+        apply ih
+        · simpa [List.filter_cons, hda] using h1
+        · simpa [List.filter_cons, hea] using h2
+
+/-- A macro whose body mentions the macro itself. -/
+theorem selfCycle_mem {env : Env} {id : DeclId} {l : Line} {n : Name} {e : LExpr}
+    (hl : env.lookup n = some (.macro id l e)) (hsh : exprShapeOk e = true) (hn : n ∈ exprRefs e) :
+    ⟨.macroCycle, l, "", some id⟩ ∈ (LexRule.macro id l n e).generate env := by
+  have hlen : 0 < env.length := by
+    cases env with
+    | nil => simp [Env.lookup] at hl
+    | cons p ps => simp
+  obtain ⟨k, hk⟩ : ∃ k, env.length = k + 1 := ⟨env.length - 1, by omega⟩
+  simp only [LexRule.generate, hsh, Bool.not_true, Bool.false_eq_true, if_false, hk, expandMacro, hl,
+    List.contains_nil, List.mem_flatMap]
+  refine ⟨n, hn, ?_⟩
+  simp [hl]
+
+
+/-! ## Faults of pass `CreateNames` -/
+
+theorem regEv_invalid {env : Env} {ev : Ev} {d : Diag} {ds : List Diag} (h : ev.validate = d :: ds) :
+    (regEv env ev).2 = d :: ds := by
+  simp [regEv, h]
+
+theorem regEv_redefined {env : Env} {ev : Ev} (hv : ev.validate = []) (hn : ev.name ∈ env.map (·.1)) :
+    (regEv env ev).2 = [⟨.redefined, ev.line, ev.name, some ev.id⟩] := by
+  have : (env.lookup ev.name).isSome = true := (lookup_isSome_iff env ev.name).2 hn
+  simp [regEv, hv, this]
+
+theorem regEv_startRedefined {env : Env} {ev : Ev} (hv : ev.validate = []) (hn : ev.name ∉ env.map (·.1))
+    (hs : ev.ent.isStart = true) (he : env.hasStart = true) :
+    (regEv env ev).2 = [⟨.startRedefined, ev.line, ev.name, some ev.id⟩] := by
+  have : ¬ (env.lookup ev.name).isSome = true := fun h => hn ((lookup_isSome_iff env ev.name).1 h)
+  simp [regEv, hv, this, hs, he]
+
+/-- `AddedStmt` together with the registrations that precede the insertion point. -/
+inductive AddedStmtAt (st : Stmt) : List Ev → Spec → Spec → Prop where
+  | inUnit (U₁ U₂ : List Unit) (S₁ S₂ : List Stmt) :
+      AddedStmtAt st ((U₁.flatMap (·.stmts) ++ S₁).flatMap Stmt.events)
+        ⟨U₁ ++ ⟨S₁ ++ S₂⟩ :: U₂⟩ ⟨U₁ ++ ⟨S₁ ++ st :: S₂⟩ :: U₂⟩
+  | newUnit (U₁ U₂ : List Unit) :
+      AddedStmtAt st ((U₁.flatMap (·.stmts)).flatMap Stmt.events) ⟨U₁ ++ U₂⟩ ⟨U₁ ++ ⟨[st]⟩ :: U₂⟩
+
+theorem AddedStmtAt.added {st : Stmt} {E₁ : List Ev} {s s' : Spec} (h : AddedStmtAt st E₁ s s') : AddedStmt st s s' := by
+  cases h with
+  | inUnit U₁ U₂ S₁ S₂ => exact .inUnit U₁ U₂ S₁ S₂
+  | newUnit U₁ U₂ => exact .newUnit U₁ U₂
+
+theorem AddedStmtAt.events {st : Stmt} {E₁ : List Ev} {s s' : Spec} (h : AddedStmtAt st E₁ s s') :
+    ∃ E₂, s.events = E₁ ++ E₂ ∧ s'.events = E₁ ++ st.events ++ E₂ := by
+  cases h with
+  | inUnit U₁ U₂ S₁ S₂ =>
+    exact ⟨(S₂ ++ U₂.flatMap (·.stmts)).flatMap Stmt.events, by simp [Spec.events, Spec.stmts], by simp [Spec.events, Spec.stmts]⟩
+  | newUnit U₁ U₂ =>
+    exact ⟨(U₂.flatMap (·.stmts)).flatMap Stmt.events, by simp [Spec.events, Spec.stmts], by simp [Spec.events, Spec.stmts]⟩
+
+/-- The added statement is syntactically fine (stage 0). -/
+structure StmtSyntaxOk (st : Stmt) : Prop where
+  lex : ∀ r ∈ st.lexRules, ∀ l ∈ r.leaves, l.escOk = true
+  par : ∀ r ∈ st.prules, r.Clean0
+
+/-- Whatever the first registration of the added statement reports is reported. -/
+theorem fault_names {st : Stmt} {E₁ : List Ev} {s s' : Spec} (h : AddedStmtAt st E₁ s s') (w : WellFormed s)
+    (hsyn : StmtSyntaxOk st) {ev : Ev} {rest : List Ev} (hev : st.events = ev :: rest) {d : Diag}
+    (hd : d ∈ (regEv (E₁.map Ev.entry) ev).2) : d ∈ analyze s' := by
+  obtain ⟨c0, c1, _, _⟩ := wf_clean w
+  have c0' := h.added.ins.clean0 c0 hsyn.lex hsyn.par
+  obtain ⟨E₂, he, he'⟩ := h.events
+  have hok : EvsOk [] (E₁ ++ E₂) := he ▸ (createNames_nil s).1 ((createNames_nil_iff s).2 c1)
+  apply analyze_of_names c0'
+  apply createNames_of_prefix (E₁ := E₁) (E₂ := rest ++ E₂) (ev := ev) _ (evsOk_prefix hok) d hd
+  rw [he', hev]; simp
+
+
+/-! ## No `@start` -/
+
+/-- Adding a first parser rule that is not `@start` (and is fine otherwise) to a specification
+without parser section: "@start rule undefined". -/
+theorem fault_noStart {s s' : Spec} {r : PRule} (h : AddedStmt (.prule r) s s') (w : WellFormed s)
+    (hnone : s.prules = []) (hf : FreshEvents s [r.event]) (hns : r.isStart = false) (hsyn : r.Clean0)
+    (hck : r.check s'.declared = []) : ⟨.startUndefined, 0, "", none⟩ ∈ analyze s' := by
+  obtain ⟨c0, c1, c2, c4⟩ := wf_clean w
+  have hi : Ins s s' [] [r] [r.event] := h.ins
+  have c0' := hi.clean0 c0 (by simp) (fun r' hr => by simp only [List.mem_singleton] at hr; subst hr; exact hsyn)
+  have c1' := hi.clean1 c1 hf (fun r' hr => by simp only [List.mem_singleton] at hr; subst hr; exact hns)
+  have hna : ∀ ev ∈ [r.event], ∀ t, ev.ent.hasAlias t = false := by
+    intro ev hev t; simp only [List.mem_singleton] at hev; subst hev; rfl
+  have c2' := hi.clean2 c1'.nodup c2 hna (by simp)
+    (fun r' hr => by simp only [List.mem_singleton] at hr; subst hr; exact hck)
+  apply analyze_of_generate c0' c1' c2'
+  -- macros of the new table are the macros of the old one
+  have hmac : ∀ a id l e, s'.declared.lookup a = some (.macro id l e) → s.declared.lookup a = some (.macro id l e) := by
+    intro a id l e hl
+    rcases hi.mem_declared.1 (mem_of_lookup hl) with hm | hm
+    · exact lookup_of_mem c1.nodup hm
+    · simp [Ev.entry, PRule.event] at hm
+  have hedge : ∀ a b, s'.declared.Edge a b → s.declared.Edge a b := by
+    rintro a b ⟨id, l, e, hl, hb, ⟨id', l', e', hl'⟩⟩
+    exact ⟨id, l, e, hmac _ _ _ _ hl, hb, ⟨id', l', e', hmac _ _ _ _ hl'⟩⟩
+  have hreach : ∀ a b, s'.declared.Reach a b → s.declared.Reach a b := by
+    intro a b hr
+    induction hr with
+    | step e => exact .step (hedge _ _ e)
+    | trans e _ ih => exact .trans (hedge _ _ e) ih
+  have hlex : ∀ x, x ∈ s'.lexRules ↔ x ∈ s.lexRules := by
+    intro x; rw [hi.mem_lex]; simp
+  have c4L : Clean4L s' s'.declared :=
+    ⟨fun x hx => c4.shape x ((hlex x).1 hx), fun x hx => c4.tokenActs x ((hlex x).1 hx),
+      fun x hx => c4.fragActs x ((hlex x).1 hx), fun m hm => c4.acyclic m (hreach m m hm)⟩
+  have hgen := (lexGenerate_nil_iff c1'.nodup c2').2 c4L
+  have hrules : s'.declared.hasRules = true := (declared_hasRules s').2 (by
+    intro hnil
+    have : r ∈ s'.prules := hi.mem_par.2 (Or.inr (by simp))
+    simp [hnil] at this)
+  have hstart : s'.declared.hasStart = false := by
+    cases hh : s'.declared.hasStart
+    · rfl
+    · have := (declared_hasStart s').1 hh
+      obtain ⟨P₁, P₂, h1, h2⟩ := hi.par
+      rw [hnone] at h1
+      have hP : P₁ = [] ∧ P₂ = [] := by simpa using h1.symm
+      rw [h2, hP.1, hP.2] at this
+      simp [hns] at this
+  unfold generate
+  simp [stmtGenerate_eq_nil.2 hgen, hrules, hstart]
+
+/-! ## The fault injectors -/
+
+/-- A new lexer rule goes between two statements of a file, into a file of its own, or between
+two rules of a `@mode` block. -/
+def LexPlaced (r : LexRule) (s s' : Spec) : Prop := AddedStmt (.rule r) s s' ∨ AddedInMode r s s'
+
+theorem LexPlaced.ins {r : LexRule} {s s' : Spec} (h : LexPlaced r s s') : Ins s s' [r] [] r.events := by
+  rcases h with h | h
+  · exact h.ins
+  · exact h.ins
+
+/-- The added lexer rule declares valid new names and contains no invalid escape: it gets through
+stage 0 and pass `CreateNames`. -/
+structure LexCarrier (r : LexRule) (s s' : Spec) : Prop where
+  placed : LexPlaced r s s'
+  fresh : FreshEvents s r.events
+  syn : ∀ l ∈ r.leaves, l.escOk = true
+
+/-- … and also through pass `Check`, without adding a literal alias. -/
+structure LexCarrier4 (r : LexRule) (s s' : Spec) : Prop extends LexCarrier r s s' where
+  noAlias : ∀ ev ∈ r.events, ∀ t, ev.ent.hasAlias t = false
+  checked : r.check s'.declared = []
+
+/-- The added parser rule (not `@start`) has a valid new name and gets through stage 0. -/
+structure ParCarrier (r : PRule) (s s' : Spec) : Prop where
+  placed : AddedStmt (.prule r) s s'
+  fresh : FreshEvents s [r.event]
+  notStart : r.isStart = false
+  syn : r.Clean0
+
+def PRule.atoms (r : PRule) : List PAtom := r.terms.flatMap (·.atom.atoms)
+
+theorem mem_ratoms {r : PRule} {x : PAtom} (h : x ∈ r.atoms) :
+    ∃ p ∈ r.prods, ∃ t ∈ p.terms, x ∈ t.atom.atoms := by
+  simp only [PRule.atoms, List.mem_flatMap] at h
+  obtain ⟨t, ht, hx⟩ := h
+  obtain ⟨p, hp, ht⟩ := mem_terms.1 ht
+  exact ⟨p, hp, t, ht, hx⟩
+
+/-- The single-fault variants of `s`: `s'` is `s` plus one declaration with one fault, put anywhere.
+Indices: the expected diagnostic (kind, blamed declaration, line). -/
+inductive Injection (s s' : Spec) : Kind → Option DeclId → Line → Prop where
+  /-- a name that breaks a naming rule (any rule of `ValidTokenName`, a reserved name, `__` in a
+  rule name): a token, macro, external, mode or parser rule statement whose first name is invalid -/
+  | badName (st : Stmt) (E₁ : List Ev) (h : AddedStmtAt st E₁ s s') (hsyn : StmtSyntaxOk st) (ev : Ev) (rest : List Ev)
+      (hev : st.events = ev :: rest) (d : Diag) (ds : List Diag) (hv : ev.validate = d :: ds) :
+      Injection s s' d.kind d.decl d.line
+  /-- a name declared earlier, duplicated into a declaration of any kind -/
+  | dupName (st : Stmt) (E₁ : List Ev) (h : AddedStmtAt st E₁ s s') (hsyn : StmtSyntaxOk st) (ev : Ev) (rest : List Ev)
+      (hev : st.events = ev :: rest) (hv : ev.validate = []) (hdup : ev.name ∈ E₁.map (·.name)) :
+      Injection s s' .redefined (some ev.id) ev.line
+  /-- a second `@start` after the first -/
+  | secondStart (st : Stmt) (E₁ : List Ev) (h : AddedStmtAt st E₁ s s') (hsyn : StmtSyntaxOk st) (ev : Ev) (rest : List Ev)
+      (hev : st.events = ev :: rest) (hv : ev.validate = []) (hnew : ev.name ∉ E₁.map (·.name))
+      (hs : ev.ent.isStart = true) (hfirst : ∃ e ∈ E₁, e.ent.isStart = true) :
+      Injection s s' .startRedefined (some ev.id) ev.line
+  /-- an empty literal in a lexer expression -/
+  | emptyLiteral (r : LexRule) (c : LexCarrier r s s') (ln : Line) (b : Nat) (h : Leaf.lit ln "" b ∈ r.leaves) :
+      Injection s s' .emptyLiteral (some r.id) ln
+  /-- a class range whose lower bound is above its upper bound -/
+  | reversedRange (r : LexRule) (c : LexCarrier r s s') (l : Leaf) (hl : l ∈ r.leaves) (cl : CharClass)
+      (hc : cl ∈ l.classes) (i : ClassItem) (hi : i ∈ cl.items) (hrev : i.hi < i.lo) :
+      Injection s s' .reversedRange (some r.id) cl.line
+  /-- a reference to a name nobody declares -/
+  | undefinedRef (r : LexRule) (c : LexCarrier r s s') (ln : Line) (n : Name) (h : Leaf.ref ln n ∈ r.leaves)
+      (hu : s'.declared.lookup n = none) : Injection s s' .undefined (some r.id) ln
+  /-- a reference to something that is not a macro -/
+  | refNotMacro (r : LexRule) (c : LexCarrier r s s') (ln : Line) (n : Name) (h : Leaf.ref ln n ∈ r.leaves) (e : Ent)
+      (hu : s'.declared.lookup n = some e) (hk : e.isMacro = false) : Injection s s' .notMacro (some r.id) ln
+  /-- `@push_mode` of an undefined mode -/
+  | undefinedMode (r : LexRule) (c : LexCarrier r s s') (ln : Line) (m : Name) (h : Action.pushMode ln m ∈ r.actions)
+      (hu : s'.declared.hasMode m = false) : Injection s s' .undefinedMode (some r.id) ln
+  /-- `@emit` of an undefined name -/
+  | emitUndefined (r : LexRule) (c : LexCarrier r s s') (ln : Line) (n : Name) (h : Action.emit ln n ∈ r.actions)
+      (hu : s'.declared.lookup n = none) : Injection s s' .undefined (some r.id) ln
+  /-- `@emit` of something that is not a token -/
+  | emitNonToken (r : LexRule) (c : LexCarrier r s s') (ln : Line) (n : Name) (h : Action.emit ln n ∈ r.actions) (e : Ent)
+      (hu : s'.declared.lookup n = some e) (hk : e.isToken = false ∧ e.isExt = false) :
+      Injection s s' .notToken (some r.id) ln
+  /-- an escape that names no code point, in a literal of a lexer expression -/
+  | badEscapeLex (r : LexRule) (h : LexPlaced r s s') (ln : Line) (t : String) (b : Nat)
+      (hl : Leaf.lit ln t (b + 1) ∈ r.leaves) : Injection s s' .badEscape (some r.id) ln
+  /-- `@discard` on a token -/
+  | tokenDiscard (id : DeclId) (l : Line) (n : Name) (e : LExpr) (acts : List Action)
+      (c : LexCarrier4 (.token id l n e acts) s s') (h1 : ∃ a ∈ acts, a.isDiscard = true)
+      (h2 : ∀ a ∈ acts, a.isEmit = false) : Injection s s' .tokenDiscard (some id) l
+  /-- `@emit` on a token -/
+  | tokenEmit (id : DeclId) (l : Line) (n : Name) (e : LExpr) (acts : List Action)
+      (c : LexCarrier4 (.token id l n e acts) s s') (h1 : ∃ a ∈ acts, a.isEmit = true)
+      (h2 : ∀ a ∈ acts, a.isDiscard = false) : Injection s s' .tokenEmit (some id) l
+  /-- a second `@discard` on a fragment -/
+  | fragTwoDiscard (id : DeclId) (l : Line) (e : LExpr) (acts : List Action) (c : LexCarrier4 (.frag id l e acts) s s')
+      (h1 : 2 ≤ (acts.filter Action.isDiscard).length) (h2 : ∀ a ∈ acts, a.isEmit = false) :
+      Injection s s' .fragTwoDiscard (some id) l
+  /-- a second `@emit` on a fragment -/
+  | fragTwoEmit (id : DeclId) (l : Line) (e : LExpr) (acts : List Action) (c : LexCarrier4 (.frag id l e acts) s s')
+      (h1 : 2 ≤ (acts.filter Action.isEmit).length) (h2 : ∀ a ∈ acts, a.isDiscard = false) :
+      Injection s s' .fragTwoEmit (some id) l
+  /-- both `@discard` and `@emit` on a fragment -/
+  | fragBoth (id : DeclId) (l : Line) (e : LExpr) (acts : List Action) (c : LexCarrier4 (.frag id l e acts) s s')
+      (h1 : (acts.filter Action.isDiscard).length = 1) (h2 : (acts.filter Action.isEmit).length = 1) :
+      Injection s s' .fragDiscardAndEmit (some id) l
+  /-- a macro that mentions itself (nobody needs to use it) -/
+  | macroCycle (id : DeclId) (l : Line) (n : Name) (e : LExpr) (c : LexCarrier4 (.macro id l n e) s s')
+      (hsh : exprShapeOk e = true) (hn : n ∈ exprRefs e) : Injection s s' .macroCycle (some id) l
+  /-- a production that mentions a name nobody declares -/
+  | parserUndefined (r : PRule) (c : ParCarrier r s s') (ln : Line) (n : Name) (h : PAtom.name ln n ∈ r.atoms)
+      (hu : s'.declared.lookup n = none) : Injection s s' .undefined (some r.id) ln
+  /-- a production that mentions a macro or a mode -/
+  | parserNotRuleOrToken (r : PRule) (c : ParCarrier r s s') (ln : Line) (n : Name) (h : PAtom.name ln n ∈ r.atoms)
+      (e : Ent) (hu : s'.declared.lookup n = some e) (hk : e.isToken = false ∧ e.isRule = false ∧ e.isExt = false) :
+      Injection s s' .notRuleOrToken (some r.id) ln
+  /-- a literal no token is made of -/
+  | unknownAlias (r : PRule) (c : ParCarrier r s s') (ln : Line) (t : String) (b : Nat)
+      (h : PAtom.alias ln t b ∈ r.atoms) (ht : t ≠ "") (hu : s'.declared.aliasCount t = 0) :
+      Injection s s' .unknownLiteral (some r.id) ln
+  /-- a literal two tokens are made of -/
+  | ambiguousAlias (r : PRule) (c : ParCarrier r s s') (ln : Line) (t : String) (b : Nat)
+      (h : PAtom.alias ln t b ∈ r.atoms) (ht : t ≠ "") (hu : 2 ≤ s'.declared.aliasCount t) :
+      Injection s s' .ambiguousLiteral (some r.id) ln
+  /-- `@list` whose element is not a plain token or rule -/
+  | listEntryNotSimple (r : PRule) (c : ParCarrier r s s') (ln : Line) (e sp : PAtom)
+      (h : PAtom.list ln e sp ∈ r.atoms) (hk : e.isSimple = false) :
+      Injection s s' .listEntryNotSimple (some r.id) e.line
+  /-- `@list` whose separator is not a plain token or rule -/
+  | listSepNotSimple (r : PRule) (c : ParCarrier r s s') (ln : Line) (e sp : PAtom)
+      (h : PAtom.list ln e sp ∈ r.atoms) (hk : e.isSimple = true) (hk' : sp.isSimple = false) :
+      Injection s s' .listSepNotSimple (some r.id) e.line
+  /-- an empty literal in a production -/
+  | emptyAlias (r : PRule) (h : AddedStmt (.prule r) s s') (ln : Line) (b : Nat) (ha : PAtom.alias ln "" b ∈ r.atoms) :
+      Injection s s' .emptyLiteral (some r.id) ln
+  /-- an escape that names no code point, in a literal of a production -/
+  | badEscapePar (r : PRule) (h : AddedStmt (.prule r) s s') (ln : Line) (t : String) (b : Nat)
+      (ha : PAtom.alias ln t (b + 1) ∈ r.atoms) : Injection s s' .badEscape (some r.id) ln
+  /-- `@left(0)` or a precedence that does not fit -/
+  | badPrecedence (r : PRule) (h : AddedStmt (.prule r) s s') (p : Prod) (hp : p ∈ r.prods) (q : Qual)
+      (hq : p.qual = some q) (hb : q.bad = true) : Injection s s' .badPrecedence (some r.id) q.line
+  /-- no `@start`: a first parser rule, not marked `@start`, in a specification without parser section -/
+  | noStart (r : PRule) (c : ParCarrier r s s') (hnone : s.prules = []) (hck : r.check s'.declared = []) :
+      Injection s s' .startUndefined none 0
+  /-- a cardinality other than `?` on `@list` -/
+  | listCard (r : PRule) (h : AddedStmt (.prule r) s s') (t : PTerm) (ht : t ∈ r.terms) (hb : t.badListCard = true) :
+      Injection s s' .listCard (some r.id) t.atom.line
+
 end Lox.Dec.Analyze
